@@ -7086,6 +7086,13 @@ retry:
 	return 0;
 }
 
+/* a pre-read token is recognized by its non-empty name. the name of an empty
+ * string literal is empty, however. without the type check, the pre-read token
+ * is lost in an expression like 1 | "" and the token after it is taken instead. */
+#define NTOK_IS_SET(hawk) \
+	(HAWK_OOECS_LEN((hawk)->ntok.name) > 0 || \
+	 (hawk)->ntok.type == TOK_STR || (hawk)->ntok.type == TOK_MBS)
+
 static int get_token (hawk_t* hawk)
 {
 	hawk->ptok.type = hawk->tok.type;
@@ -7095,7 +7102,7 @@ static int get_token (hawk_t* hawk)
 	hawk->ptok.loc.colm = hawk->tok.loc.colm;
 	hawk_ooecs_swap (hawk->ptok.name, hawk->tok.name);
 
-	if (HAWK_OOECS_LEN(hawk->ntok.name) > 0)
+	if (NTOK_IS_SET(hawk))
 	{
 		hawk->tok.type = hawk->ntok.type;
 		hawk->tok.flags = hawk->ntok.flags;
@@ -7105,6 +7112,7 @@ static int get_token (hawk_t* hawk)
 
 		hawk_ooecs_swap (hawk->tok.name, hawk->ntok.name);
 		hawk_ooecs_clear (hawk->ntok.name);
+		hawk->ntok.type = TOK_EOF; /* nothing is pre-read any more. see NTOK_IS_SET() */
 
 		return 0;
 	}
@@ -7117,7 +7125,7 @@ static int preget_token (hawk_t* hawk)
 	/* LIMITATION: no more than one token can be pre-read in a row
 	               without consumption. */
 
-	if (HAWK_OOECS_LEN(hawk->ntok.name) > 0)
+	if (NTOK_IS_SET(hawk))
 	{
 		/* you can't read more than 1 token in advance.
 		 *
